@@ -243,6 +243,8 @@ def run_urdf_history(hid, seed):
         other.add_collider(f"o{k}", C.Box(tm2.get_transform(f"o{k}", "origin"), size))
     other.update_collider_poses()
     oframes = [d[0] for d in other.aabbtree_.external_data_list if d is not None]
+    moving_obstacles = rng.random() < 0.6
+
     def mover(step):
         for name, jt in jinfo.items():
             if rng.random() < 0.7:
@@ -252,6 +254,13 @@ def run_urdf_history(hid, seed):
             T = np.eye(4); T[:3, 3] = [rng.randint(-3, 3) for _ in range(3)]
             tm.add_transform("r", "origin", T)            # the mobile base moves
         bvh.update_collider_poses()
+        if moving_obstacles:
+            # the second hierarchy moves too; the cross-hierarchy query that follows is the first query after its update
+            for k in range(len(oframes)):
+                if rng.random() < 0.7:
+                    T = np.eye(4); T[:3, 3] = [rng.randint(-5, 5) for _ in range(3)]
+                    tm2.add_transform(f"o{k}", "world", T)
+            other.update_collider_poses()
     observe_all(ev, hid, rng, tm, bvh, frames, wl, mover, rng.randint(1, 4), other, oframes)
     return ev
 
